@@ -71,6 +71,23 @@ def wSfOptsAfterAppend : VWitness :=
       ("L", { name := "L", selfPkg := "p", selfName := "L", ty := .struct [{ name := "items", ty := .array (.ref "p" "I" {}) {}, required := false }] [] none {} })],
     files := wFile [] [.arrayToAppend (.byName "L.items"), .structFieldsAsOptions (.byName "L.items") none] }
 
+/-- a YAML-declared second assignment using the option's argument, then `array_to_append`:
+    only `Assignments[0]` is rewritten -/
+def wAddAssignmentAppend : VWitness :=
+  { ss := wSchema [],
+    files := wFile [] [
+      .addAssignment (.byName "S.tags")
+        { path := "tags", method := "append",
+          value := .mk (some { id := 900, arg := { name := "tags", ty := .array wStr {} } }) .nil false [] },
+      .arrayToAppend (.byName "S.tags")] }
+
+/-- `map_to_index` (common pass) gives the option two arguments; `promote_options_to_constructor`
+    (language pass) declares only the first in the constructor but promotes the assignment, which uses the second -/
+def wMapIndexPromote : VWitness :=
+  { ss := wSchema [],
+    files := [{ language := "all", pkg := "p", options := [.mapToIndex (.byName "S.flags")] },
+              { language := "go", pkg := "p", builders := [.promote (.byObject "S") ["flags"]] }] }
+
 def vWitness : String → Option VWitness
   | "dup-option-default" => some wDupOption
   | "dup-builder-default" => some wDupBuilder
@@ -80,6 +97,8 @@ def vWitness : String → Option VWitness
   | "merge-rename-arguments" => some wMergeRename
   | "map-index-unfold" => some wMapIndexUnfold
   | "sf-opts-after-append" => some wSfOptsAfterAppend
+  | "add-assignment-array-to-append" => some wAddAssignmentAppend
+  | "map-index-promote" => some wMapIndexPromote
   | _ => none
 
 end Cog.Builder
